@@ -9,7 +9,7 @@ W=/var/tmp/confirm.$$
 git -C /repo worktree add --detach "$W" HEAD >/dev/null 2>&1 || exit 2
 cp /repo/testdata/trace.snappy.parquet "$W/testdata/trace.snappy.parquet"
 cd "$W"
-fails() { go test -vet=off -count=1 ./... 2>&1 | grep -a -E "^(--- FAIL|FAIL|panic:)" | sort | uniq; }
+fails() { go test -vet=off -count=1 ./... 2>&1 | grep -a -E "^(--- FAIL|FAIL|panic:)" | sed -E "s/[(]?[0-9.]+s[)]?$//" | sort | uniq; }
 demo_run() { cp "$demo" "$W/$sub/zz_seeded_demo_test.go"; (cd "$W/$sub" && go test -vet=off -count=1 -run 'Seeded|seeded|Demo' . 2>&1 | tail -3 | tr '\n' ' '); rc=${PIPESTATUS[0]}; rm -f "$W/$sub/zz_seeded_demo_test.go"; }
 base_fail="$(fails)"
 d0="$(cp "$demo" "$W/$sub/zz_seeded_demo_test.go"; cd "$W/$sub" && go test -vet=off -count=1 -run 'Seeded|seeded|Demo' . >/tmp/confirm.$$.d0 2>&1; echo $?; rm -f "$W/$sub/zz_seeded_demo_test.go")"
